@@ -191,6 +191,11 @@ impl Model {
 
     /// Frames that a queued (not yet drained) head:K task may already have
     /// removed: the collector runs asynchronously any time after the append.
+    /// Is head:K work for this (context, topic) still in the collector's queue?
+    pub fn has_pending_head(&self, ctx: u128, topic: &str) -> bool {
+        self.queue.iter().any(|q| matches!(q, GcItem::Head(t) if t.ctx == ctx && t.topic == topic))
+    }
+
     pub fn pending_evictable(&self) -> BTreeSet<u128> {
         let mut out = BTreeSet::new();
         for t in self.queue.iter().filter_map(|q| match q {
